@@ -271,3 +271,8 @@ def run(repo: Repo, rep: Report, tier: str) -> None:
                and any(pol and g == "isinstance(ELEM(ir_operations), IRLatchWrite)" for g, pol in cguards(an9, k))]
         rep.check(bool(ex9), "C05-R9", f"a constant used as IRLatchWrite.{slot9} is always placed", "exported in the IRLatchWrite branch" if ex9 else
                   f"IRLatchWrite.{slot9} is only recorded as a consumer: an anonymous constant there is treated as inlinable and never placed — {ex_in}", an9.loc())
+
+    # ---------------- R10 --------------------------------------------------------------
+    from .shared import borrow as _borrow5b
+    _borrow5b(repo, rep, "C01", "C01-R4", "C05-R10", "the latch's conditions read set, reset and feedback wherever they arrive: a decider operand without a recorded wire selection "
+              "reads both colours", select=lambda o: "defaults to both colours" in o.construct, floor=4)
